@@ -125,7 +125,14 @@ Proof.
   - apply bytes_ltb_asym.
 Qed.
 
-Definition key_sorted (l : list (list N * str)) : bool := sorted_by ip_le (map fst l).
+(* the comparator's own "not greater" relation; it is the reference order when IPv6 sorts first *)
+Definition cmp_le (x y : list N) : bool := negb (ip_less y x).
+Lemma cmp_le_is_ip_le x y : sort_ipv6_first = true -> cmp_le x y = ip_le x y.
+Proof.
+  intro H. unfold cmp_le, ip_le, ip_less. rewrite H.
+  destruct (is_v4 x), (is_v4 y); reflexivity.
+Qed.
+Definition key_sorted (l : list (list N * str)) : bool := sorted_by cmp_le (map fst l).
 
 Lemma insert_perm x l : Permutation (x :: l) (insert_ip x l).
 Proof.
@@ -145,17 +152,27 @@ Proof.
   unfold key_sorted. induction l as [|y r IH]; intro H; [reflexivity|].
   cbn [insert_ip]. destruct (ip_less (fst x) (fst y)) eqn:E.
   - cbn [map sorted_by]. cbn [map sorted_by] in H. rewrite H.
-    unfold ip_le at 1. rewrite (ip_less_asym _ _ E). reflexivity.
+    unfold cmp_le at 1. rewrite (ip_less_asym _ _ E). reflexivity.
   - cbn [map sorted_by] in *.
-    assert (Hr : sorted_by ip_le (map fst r) = true).
+    assert (Hr : sorted_by cmp_le (map fst r) = true).
     { destruct (map fst r); [reflexivity|]. apply andb_true_iff in H as [_ H]. exact H. }
     specialize (IH Hr).
     destruct r as [|z r'].
-    + cbn [insert_ip map sorted_by]. unfold ip_le. rewrite E. reflexivity.
+    + cbn [insert_ip map sorted_by]. unfold cmp_le. rewrite E. reflexivity.
     + cbn [insert_ip] in *. destruct (ip_less (fst x) (fst z)) eqn:E2.
-      * cbn [map sorted_by] in *. unfold ip_le at 1. rewrite E. cbn [negb andb]. exact IH.
+      * cbn [map sorted_by] in *. unfold cmp_le at 1. rewrite E. cbn [negb andb]. exact IH.
       * cbn [map sorted_by] in *. apply andb_true_iff in H as [H1 _]. rewrite H1. exact IH.
 Qed.
 
 Lemma sort_sorted l : key_sorted (sort_ips l) = true.
 Proof. induction l as [|x r IH]; [reflexivity|]. simpl. apply insert_sorted. exact IH. Qed.
+
+Lemma sorted_by_ext (f g : list N -> list N -> bool) l : (forall x y, f x y = g x y) -> sorted_by f l = sorted_by g l.
+Proof.
+  intro H. induction l as [|x r IH]; [reflexivity|]. cbn [sorted_by]. destruct r; [reflexivity|]. rewrite H, IH. reflexivity.
+Qed.
+
+Lemma sort_sorted_reference l : sort_ipv6_first = true -> sorted_by ip_le (map fst (sort_ips l)) = true.
+Proof.
+  intro H. rewrite <- (sorted_by_ext cmp_le ip_le _ (fun x y => cmp_le_is_ip_le x y H)). apply sort_sorted.
+Qed.
